@@ -395,7 +395,8 @@ func famC04(r *Run) {
 			mut = append(append(append([]string{}, toks[:k]...), tokenAlphabet[r.rng.Intn(len(tokenAlphabet))]), toks[k:]...)
 		}
 		r.addAst("G-expr-mutated", joinToks(mut, textOpts{}), false)
-		r.addTree("G-expr-valid", t, t.text(textOpts{}), nil, "exact")
+		vt := t.text(textOpts{})
+		r.addTree("G-expr-valid", t, vt, nil, modeFor(vt, nil))
 	}
 }
 
